@@ -13,6 +13,8 @@ import FordModel.LinksSpec
 import FordModel.Lemmas.Links
 import FordModel.Lemmas.LinkPath
 import FordModel.Lemmas.LinkSites
+import FordModel.LinkSyntax
+import FordModel.Lemmas.LinkSyntax
 namespace Ford.C11
 open Ford Ford.Links
 
@@ -243,6 +245,151 @@ theorem lookup_case_insensitive (P : Project) (n n' : Str) (l : List Item) (h : 
     cases x with
     | other => simpa [findInList] using ih
     | ent id => simp only [findInList, hm id, ih]
+
+/-! ### Round 3: how a reference is recognised in a text (the pattern `LINK_RE` and the inline loop) -/
+
+/-- **The pattern the tokenizer mirrors is the pattern of the source** (`FordLinkProcessor.LINK_RE`,
+    parsed with Python's regex parser and dumped canonically on every run): `[[`, the `name` group =
+    one or more `\w` followed by the separator tail described by `linkNameSeps` / `linkNameMany`, an
+    optional `(\w+)`, an optional `:\w+` with its own optional `(\w+)`, `]]`; matched under
+    `re.UNICODE` without IGNORECASE/ASCII/DOTALL; the groups carry the parameter names of
+    `Project.find`, which receives them as `**m.groupdict()`; the inline processor hands this very
+    pattern to Markdown and replaces exactly the matched span. -/
+theorem link_pattern_modelled :
+    Generated.C11.linkRe =
+      ["seq(lit([)", "lit([)",
+       "group:name[0,0](seq(max_repeat(1,inf,seq(in[category_word]))", "NAMETAIL(None)))",
+       "max_repeat(0,1,seq(lit(()", "group:entity[0,0](seq(max_repeat(1,inf,seq(in[category_word]))))", "lit())))",
+       "max_repeat(0,1,seq(lit(:)", "group:child_name[0,0](seq(max_repeat(1,inf,seq(in[category_word]))))",
+       "max_repeat(0,1,seq(lit(()", "group:child_entity[0,0](seq(max_repeat(1,inf,seq(in[category_word]))))", "lit())))))",
+       "lit(])", "lit(]))"] ∧
+    Generated.C11.linkNameRecognised = true ∧
+    Generated.C11.linkReFlags = ["UNICODE", "VERBOSE"] ∧
+    Generated.C11.linkGroups = ["name", "entity", "child_name", "child_entity"] ∧
+    Generated.C11.linkFindParams = Generated.C11.linkGroups ∧
+    Generated.C11.linkHandle = "self.LINK_RE ; (self.convert_link(m), m.start(0), m.end(0))" := by
+  decide
+
+/-- The separators of the `name` group (read from the source) include `.` - so that `stem.ext`, the
+    name of a source file, can be written - and none of them is a word character or one of the
+    delimiters `(`, `:`, `[`, `]`: the tokenizer never has to backtrack. -/
+theorem link_pattern_separators_safe : linkCfg.ok = true := by decide
+
+/-- The character class of every part of a reference contains all letters, all digits and the
+    underscore - no position of a name is restricted (a name may start with a digit). -/
+theorem word_class_covers_letters_digits_underscore (c : Char)
+    (h : isAlpha c = true ∨ isDigit c = true ∨ c = '_') : isWordU c = true := by
+  apply isWordU_of_isWord
+  rcases h with h | h | h <;> simp [isWord, h]
+
+/-- **Every documented spelling is recognised.**  For every reference written as the user guide says
+    - component = a name or `stem.ext`, made of letters, digits and underscores *in any order*,
+    optional `(kind)`, optional `:item` with optional `(kind)` - and whatever text follows it, the
+    pattern of the working tree matches the reference, yields exactly the four parts as written and
+    ends where the reference ends. -/
+theorem documented_reference_recognised (r : Ref) (rest : Str) (h : r.Documented) :
+    matchLinkAt linkCfg (r.render ++ rest) = some (r, rest) :=
+  matchLinkAt_render linkCfg link_pattern_separators_safe r rest
+    (nameAccepted_documented linkCfg link_pattern_separators_safe r h) h.2.1 h.2.2.1 h.2.2.2.1 h.2.2.2.2
+
+/-- The same for every component name the pattern accepts (word runs joined by single separator
+    characters; which names these are is decidable, `nameAccepted`) and for every pattern
+    configuration whose separators are safe - in particular for a repaired pattern that admits
+    `-` and several dots (finding C11-file-name-outside-link-pattern). -/
+theorem accepted_name_recognised (cfg : NameCfg) (hok : cfg.ok = true) (r : Ref) (rest : Str)
+    (hn : nameAccepted cfg r.name = true)
+    (hk : ∀ k, r.kind = some k → WordStr k) (hc : ∀ c, r.child = some c → WordStr c)
+    (hck : ∀ k, r.childKind = some k → WordStr k) (hcc : r.child = none → r.childKind = none) :
+    matchLinkAt cfg (r.render ++ rest) = some (r, rest) :=
+  matchLinkAt_render cfg hok r rest hn hk hc hck hcc
+
+/-- **Every reference of a text is found.**  A documentation text written as
+    `pre₁ [[r₁]] pre₂ [[r₂]] ... post` (no `[` in the plain parts, any number of references, each in
+    a documented spelling) is cut by the inline loop into exactly these pieces: nothing is skipped,
+    nothing outside the brackets is swallowed, the order is kept. -/
+theorem references_of_a_text_recognised (parts : List (Str × Ref)) (post : Str)
+    (hdoc : ∀ p ∈ parts, p.2.Documented)
+    (hpre : ∀ p ∈ parts, ∀ c ∈ p.1, c ≠ '[') (hpost : ∀ c ∈ post, c ≠ '[') :
+    segments linkCfg (renderParts parts post) = partsSegs parts post :=
+  segGo_parts linkCfg parts post
+    (fun p hp rest => documented_reference_recognised p.2 rest (hdoc p hp)) hpre hpost
+
+/-- **The written reference is what is looked up.**  The conversion of such a text is the
+    conversion of its pieces: each `[[rᵢ]]` is replaced by what `convert_link` gives for exactly the
+    parts written (so every lookup theorem above speaks about the text as written), the plain parts
+    stay. -/
+theorem text_references_reach_lookup (env : Env) (P : Project) (ctx : Option Nat) (path : Option Path)
+    (parts : List (Str × Ref)) (post : Str)
+    (hdoc : ∀ p ∈ parts, p.2.Documented)
+    (hpre : ∀ p ∈ parts, ∀ c ∈ p.1, c ≠ '[') (hpost : ∀ c ∈ post, c ≠ '[') :
+    convertText linkCfg env P ctx path (renderParts parts post) =
+      convertSegs env P ctx path (partsSegs parts post) := by
+  rw [convertText, references_of_a_text_recognised parts post hdoc hpre hpost]
+
+/-- One reference inside running text: the text before and after it is kept, the reference becomes
+    the link / the plain name / the exception `convert_link` yields for it. -/
+theorem reference_in_running_text (env : Env) (P : Project) (ctx : Option Nat) (path : Option Path)
+    (pre post : Str) (r : Ref) (hdoc : r.Documented)
+    (hpre : ∀ c ∈ pre, c ≠ '[') (hpost : ∀ c ∈ post, c ≠ '[') :
+    convertText linkCfg env P ctx path (pre ++ r.render ++ post) =
+      match convertLink env P ctx path r with
+      | .err e => .error e
+      | .link t h => .ok ((if pre.isEmpty then [] else [.plain pre]) ++ .link t h :: (if post.isEmpty then [] else [.plain post]))
+      | .text t => .ok ((if pre.isEmpty then [] else [.plain pre]) ++ .text t :: (if post.isEmpty then [] else [.plain post])) := by
+  have := text_references_reach_lookup env P ctx path [(pre, r)] post
+    (by intro p hp; simp at hp; subst hp; exact hdoc)
+    (by intro p hp; simp at hp; subst hp; exact hpre) hpost
+  simp only [renderParts, partsSegs] at this
+  rw [this]
+  exact convertSegs_single env P ctx path pre post r
+
+/-- **A reference to something that does not exist, in running text, is the name as written** -
+    also when the name starts with a digit (`[[1]]`, `[[2nd_pass]]`) - and the text around it stays. -/
+theorem absent_reference_in_text_is_plain_name (env : Env) (P : Project) (ctx : Option Nat) (path : Option Path)
+    (pre post : Str) (r : Ref) (hdoc : r.Documented)
+    (hpre : ∀ c ∈ pre, c ≠ '[') (hpost : ∀ c ∈ post, c ≠ '[')
+    (hK : ∀ e ∈ P.ents, raisesTypeError e r.kind = false)
+    (hC : ∀ e ∈ P.ents, raisesTypeError e r.childKind = false)
+    (hP : knownComponentKind r.kind = true)
+    (habs : ∀ id, nameMatches P r.name id = false) :
+    convertText linkCfg env P ctx path (pre ++ r.render ++ post) =
+      .ok ((if pre.isEmpty then [] else [.plain pre]) ++ .text r.name :: (if post.isEmpty then [] else [.plain post])) := by
+  rw [reference_in_running_text env P ctx path pre post r hdoc hpre hpost,
+    absent_is_text env P ctx path r hK hC hP habs]
+
+/-- A text without `[` is left alone. -/
+theorem text_without_brackets_unchanged (cfg : NameCfg) (s : Str) (h : ∀ c ∈ s, c ≠ '[') :
+    segments cfg s = flush s.reverse := by
+  have := segGo_plain cfg s [] [] h
+  simpa [segments, segGo] using this
+
+/-- Non-vacuity and the shape m5-like regressions touch: a source file whose name starts with a
+    digit, referenced with and without the `file` qualifier inside running text next to a reference
+    with both qualifiers; names made of digits only or starting with an underscore. -/
+theorem digit_leading_names_example :
+    segments linkCfg (chars! "see [[2d_mesh.f90]], [[2D_MESH.f90(file)]] and [[m_1(module):v_(variable)]].") =
+      [.plain (chars! "see "),
+       .ref { name := chars! "2d_mesh.f90" },
+       .plain (chars! ", "),
+       .ref { name := chars! "2D_MESH.f90", kind := some (chars! "file") },
+       .plain (chars! " and "),
+       .ref { name := chars! "m_1", kind := some (chars! "module"), child := some (chars! "v_"),
+              childKind := some (chars! "variable") },
+       .plain (chars! ".")] ∧
+    segments linkCfg (chars! "[[1]][[_x]]") = [.ref { name := chars! "1" }, .ref { name := chars! "_x" }] := by
+  decide
+
+/-- **File names the pattern cannot spell** (finding C11-file-name-outside-link-pattern): with the
+    `name` group `\w+(?:\.\w+)?` a reference to the source file `mesh-tools.f90` or `mesh.v2.f90` is
+    not recognised at all - the text stays verbatim, without a warning - although `file` is a
+    documented kind of link target; with the repaired group `\w+(?:[.-]\w+)*` both are read. -/
+theorem file_name_outside_pattern_witness :
+    findLink { seps := ['.'], many := false } (chars! "[[mesh-tools.f90]]") = none ∧
+    findLink { seps := ['.'], many := false } (chars! "[[mesh.v2.f90(file)]]") = none ∧
+    segments { seps := ['.', '-'], many := true } (chars! "[[mesh-tools.f90]] [[mesh.v2.f90(file)]]") =
+      [.ref { name := chars! "mesh-tools.f90" }, .plain [' '],
+       .ref { name := chars! "mesh.v2.f90", kind := some (chars! "file") }] := by
+  decide
 
 /-! ### URLs -/
 
